@@ -1,6 +1,7 @@
 (* C09 - Frames that the decoder must reject are rejected. *)
-From MQ Require Import Model.Stream Proofs.BytesP Proofs.VbP Proofs.WireP Proofs.DecP Proofs.StreamP
-     Proofs.FrameFieldP Proofs.RejectP Spec.Mqtt5.
+From MQ Require Import Model.Codec Model.Stream Proofs.BytesP Proofs.VbP Proofs.WireP Proofs.DecP Proofs.StreamP
+     Proofs.FrameFieldP Proofs.RejectP Proofs.AcceptP Proofs.CutP Spec.Mqtt5.
+From Coq Require Import Lia.
 
 (* (a) A field cut strictly inside is reported by its decoder, for every
    value of the field and every interior cut position: two- and four-byte
@@ -76,12 +77,71 @@ Theorem C09d_unknown : forall fuel m will sm endp id s b,
 Proof. exact getany_unknown. Qed.
 Print Assumptions C09d_unknown.
 
-(* Not proved as one statement over whole frames ("for every valid frame
-   and every interior cut position ReadPacket errs"): that needs the
-   decoder to be followed up to the cut field for every packet layout; the
-   per-field theorems above, the stickiness theorem and the oracle over the
-   specification's field map (every interior cut of every generated frame)
-   stand for it. *)
+(* (a) over whole frames.  For every valid frame (frame_ok: the frames of
+   the C03 theorems, all 15 types, properties in any order) and every cut
+   position c that falls strictly inside a segment of the reference
+   encoder's field map (Spec.Mqtt5.body_segs) other than a single byte, the
+   raw PUBLISH payload or the reason-code list - a two- or four-byte
+   integer, a string or binary field (prefix or body), the property length,
+   a property (between identifier and value, or inside the value), a topic
+   filter - the body cut at c is rejected by UnmarshalBinary ... *)
+Theorem C09a_whole_frames : forall f c, frame_ok f -> seg_cut (body_segs (af_body f)) c ->
+  exists e, decode_frame (n2b (af_type f * 16 + af_flags f)) (firstn c (e_body (af_body f))) = Some (None, Some e).
+Proof. exact cut_inside_field_rejected. Qed.
+Print Assumptions C09a_whole_frames.
+
+(* ... and ReadPacket, given that frame with the remaining length equal
+   to the shortened size, under any delivery (script s) and whatever
+   follows (rest), returns an error and no packet. *)
+Theorem C09a_read_packet : forall f c s rest,
+  frame_ok f -> seg_cut (body_segs (af_body f)) c ->
+  let b0 := n2b (af_type f * 16 + af_flags f) in
+  let cut := firstn c (e_body (af_body f)) in
+  len cut < 268435456 ->
+  sbytes s = b0 :: enc_vb (len cut) ++ cut ++ rest ->
+  avail (len (b0 :: enc_vb (len cut) ++ cut)) s = true ->
+  exists e tr, read_packet s =
+    RP {| r_pkt := None; r_err := Some e; r_rest := sdrop (len (b0 :: enc_vb (len cut) ++ cut)) s;
+          r_trace := tr; r_got := b0 :: enc_vb (len cut) ++ cut |}.
+Proof. exact cut_inside_field_read_packet. Qed.
+Print Assumptions C09a_read_packet.
+
+(* the field map is the encoder's: its segments concatenate to the body *)
+Theorem C09a_segs_cover : forall b c, seg_cut (body_segs b) c -> field_cut (fields b) c.
+Proof. exact segs_refine. Qed.
+Theorem C09a_fields_body : forall b, concat (map fst (fields b)) = e_body b.
+Proof. exact fields_body. Qed.
+
+(* the hypotheses are inhabited: a CONNACK with a two-byte property cut
+   between identifier and value (c = 4) and inside the value (c = 5); a
+   SUBSCRIBE cut inside its second topic filter *)
+Ltac sprop := unfold sprop_ok; cbn [ap_id ap_val pval_type pval_ok pnumval];
+  repeat split; try reflexivity; try discriminate; try (intros; discriminate); try (apply N.ltb_lt; reflexivity).
+Ltac nodup := vm_compute; repeat (apply NoDup_cons; [intros H; cbn in H; intuition discriminate|]); apply NoDup_nil.
+Example C09a_inhabited :
+  let f1 := {| af_type := 2; af_flags := 0;
+               af_body := BConnack 0 0 [ {| ap_id := 33; ap_val := VTwo 10 |} ] |} in
+  let f2 := {| af_type := 8; af_flags := 2;
+               af_body := BSubscribe 7 [] [([x61], 1); ([x62; x63], 0)] |} in
+  frame_ok f1 /\ seg_cut (body_segs (af_body f1)) 4 /\ seg_cut (body_segs (af_body f1)) 5
+  /\ frame_ok f2 /\ seg_cut (body_segs (af_body f2)) 10.
+Proof.
+  cbv zeta. split; [|split; [|split; [|split]]].
+  - unfold frame_ok; cbn [af_type af_flags af_body].
+    split; [reflexivity|]. split; [reflexivity|]. split; [apply N.leb_le; reflexivity|].
+    split; [apply N.ltb_lt; reflexivity|]. split; [|apply N.ltb_lt; vm_compute; reflexivity].
+    split; [repeat (apply Forall_cons; [sprop|]); apply Forall_nil|nodup].
+  - vm_compute. right. split; [lia|]. right. split; [lia|]. right. split; [lia|]. left.
+    split; [repeat split; discriminate|lia].
+  - vm_compute. right. split; [lia|]. right. split; [lia|]. right. split; [lia|]. left.
+    split; [repeat split; discriminate|lia].
+  - unfold frame_ok; cbn [af_type af_flags af_body].
+    split; [reflexivity|]. split; [reflexivity|]. split; [apply N.ltb_lt; reflexivity|].
+    split; [split; [apply Forall_nil|nodup]|]. split; [apply N.ltb_lt; vm_compute; reflexivity|].
+    repeat (apply Forall_cons; [split; apply N.ltb_lt; vm_compute; reflexivity|]). apply Forall_nil.
+  - vm_compute. right. split; [lia|]. right. split; [lia|]. right. split; [lia|]. right. split; [lia|].
+    left. split; [repeat split; discriminate|lia].
+Qed.
 
 Example C09_witnesses :
   (exists p, unmarshal KPubAck zero_pkt [x00] = UErr EMissingData p) /\
